@@ -353,4 +353,52 @@ theorem scan_refines (irp : Option String) (as : List AssD) :
   cases h3 : scan3 irp as <;> simp only [h3] at hl <;> obtain ⟨e, hl⟩ := hl <;> rw [hl]
 
 
+/-- `loads` with the comparison it delegates to RUN from its own regenerated term (not assumed): the externals of
+    `AuthnResponse.loads` when the clear assertions of the Response are `as` -/
+def loadsExtRun (sigR : R Val) (as : List AssD) (irt : Option String) : Ext :=
+  loadsExt sigR (asExt (run Sp.pyStrip noExt AuthnResponse_check_subject_confirmation_in_response_to [selfScan as, optStr irt, .none]))
+
+/-- **`AuthnResponse.loads` composed with `check_subject_confirmation_in_response_to`** — both from their current
+    texts — refines `Sp.loads`, for every Response whose clear assertions are the ones the scan is run on. -/
+theorem loads_refines_composed (cfg : Sp.Cfg) (env : Sp.Env) (req : Bool) (r : Sp.Response) (as : List AssD)
+    (hplain : Sp.plainOf r = as.map toAssertion) :
+    match Sp.loads cfg env req r with
+    | .ok cf =>
+      (∃ v, (runMethod Sp.pyStrip
+        (loadsExtRun (match sigGate r.sig req with | some _ => .raise "SignatureError" | none => .ok .none) as r.inResponseTo)
+        AuthnResponse_loads [.obj (selfLoads env.asynchop r.inResponseTo env.outstanding cfg.allowUnsolicited), .str "<xml>", .bool false, .none]).1
+          = .value v) ∧
+      cameFromOf (runMethod Sp.pyStrip
+        (loadsExtRun (match sigGate r.sig req with | some _ => .raise "SignatureError" | none => .ok .none) as r.inResponseTo)
+        AuthnResponse_loads [.obj (selfLoads env.asynchop r.inResponseTo env.outstanding cfg.allowUnsolicited), .str "<xml>", .bool false, .none]).2
+          = some (match cf with | some c => .str c | none => .none)
+    | .error .unsolicited =>
+      (runMethod Sp.pyStrip
+        (loadsExtRun (match sigGate r.sig req with | some _ => .raise "SignatureError" | none => .ok .none) as r.inResponseTo)
+        AuthnResponse_loads [.obj (selfLoads env.asynchop r.inResponseTo env.outstanding cfg.allowUnsolicited), .str "<xml>", .bool false, .none]).1
+          = .raised "UnsolicitedResponse"
+    | .error _ =>
+      (runMethod Sp.pyStrip
+        (loadsExtRun (match sigGate r.sig req with | some _ => .raise "SignatureError" | none => .ok .none) as r.inResponseTo)
+        AuthnResponse_loads [.obj (selfLoads env.asynchop r.inResponseTo env.outstanding cfg.allowUnsolicited), .str "<xml>", .bool false, .none]).1
+          = .raised "SignatureError" := by
+  have hs := scan_refines r.inResponseTo as
+  have hmod : Sp.scanAssertions r.inResponseTo (Sp.plainOf r) = (scan3 r.inResponseTo as == .mismatch) := by
+    rw [hplain]; exact hs.2
+  -- the run of the scan is one of the three outcomes `loads_refines` is stated for
+  have hchk : asExt (run Sp.pyStrip noExt AuthnResponse_check_subject_confirmation_in_response_to [selfScan as, optStr r.inResponseTo, .none]) =
+      (if (scan3 r.inResponseTo as == .attrErr) then R.raise "AttributeError"
+       else R.ok (Val.bool (!Sp.scanAssertions r.inResponseTo (Sp.plainOf r)))) := by
+    rw [hs.1, hmod]
+    cases scan3 r.inResponseTo as <;> rfl
+  have hattr : (scan3 r.inResponseTo as == .attrErr) = true → Sp.scanAssertions r.inResponseTo (Sp.plainOf r) = false := by
+    intro h
+    rw [hmod]
+    cases h3 : scan3 r.inResponseTo as <;> simp_all
+  have := loads_refines cfg env req r (scan3 r.inResponseTo as == .attrErr) hattr
+  unfold loadsExtRun
+  rw [hchk]
+  exact this
+
+
 end PyTie
